@@ -403,7 +403,7 @@ class Path:
         self.pc.append(f)
         self.def_ids.add(id(f))
 
-    def proves(self, c):
+    def proves(self, c, timeout=1000):
         """does the path condition entail c (decided inline; False on unknown)"""
         c = z3.simplify(c)
         if z3.is_true(c):
@@ -423,7 +423,7 @@ class Path:
             r = True
         else:
             s = z3.Solver()
-            s.set('timeout', 1000)
+            s.set('timeout', timeout)
             for p in self.pc:
                 if not has_quantifier(p):  # as in feasible(): entailment from fewer hypotheses is still entailment
                     s.add(p)
@@ -971,7 +971,8 @@ class Path:
                 if not isinstance(c, bool) and not isinstance(c, Unknown):
                     # a test that the path condition decides is as good as a concrete one (complete unrolling)
                     ct = zbool(c)
-                    p_true, p_false = self.proves(ct), self.proves(z3.Not(ct))
+                    # (generous budget: an undecided test makes the whole entry undecided)
+                    p_true, p_false = self.proves(ct, 6000), self.proves(z3.Not(ct), 6000)
                     if p_true and p_false:
                         raise Infeasible()  # contradictory path condition (everything is entailed): not a path
                     if p_true or p_false:
